@@ -1497,7 +1497,8 @@ type Pattern struct {
 }
 
 func newPattern(pattern string) (*Pattern, error) {
-	r, err := regexp.Compile(pattern)
+	// XSD patterns (RFC7950 Sec 9.4.5) match the whole value
+	r, err := regexp.Compile("^(?:" + pattern + ")$")
 	if err != nil {
 		return nil, err
 	}
